@@ -39,6 +39,7 @@ type FoCfg struct {
 	Collide    bool               `json:"Collide"`    // two keys that collide under xxhash64 (SyncMap backend only: sharded maps share the slot)
 	CollideAny bool               `json:"CollideAny"` // ... over any backend (random walks judged by collision-independent monitors only)
 	UnitSec    int                `json:"UnitSec"`
+	UnitMs     int                `json:"UnitMs"`
 	Defaults   bool               `json:"Defaults"` // leave FailedUpdateTTL/UpdateTTL/TimeToLive at library defaults (UnitSec must be 40)
 	Mutability bool               `json:"Mutability"`
 }
@@ -50,6 +51,10 @@ type foEntJ struct {
 }
 
 func (c FoCfg) unit() time.Duration {
+	if c.UnitMs != 0 { // sub-second ticks: MaxStaleness, TTLs and expiry instants that are not whole seconds
+		return time.Duration(c.UnitMs) * time.Millisecond
+	}
+
 	if c.UnitSec == 0 {
 		return time.Hour
 	}
